@@ -300,7 +300,7 @@ pub fn judge_c12(game: &Game, acc: &mut Acc, runno: u64, z: &ZobristHasher) {
             Some(i) => *i,
             None => continue,
         };
-        let completed = refr.stopped || refr.lines.iter().any(|(_, l)| crate::verif_seam::info_depth(l).map(|x| x > d).unwrap_or(false));
+        let completed = refr.stopped || (!refr.stopped && refr.panicked.is_none()) || refr.lines.iter().any(|(_, l)| crate::verif_seam::info_depth(l).map(|x| x > d).unwrap_or(false));
         if !completed {
             continue;
         }
@@ -355,6 +355,14 @@ pub fn judge_c12(game: &Game, acc: &mut Acc, runno: u64, z: &ZobristHasher) {
 
 // ------------------------------------------------------------------------------------------
 // C11
+
+/// mate in one by a quiet move, with a forcing capture-check line that also mates (longer)
+pub const CROSS_CHECK_MATES: &[&str] = &[
+    "r3n2k/4R1p1/6P1/8/Q1B5/1R6/8/4K3 w - - 0 1",
+    "r3n2k/4R1p1/6P1/8/Q1B5/2R5/8/4K3 w - - 0 1",
+    "r3n2k/4R1p1/6P1/8/Q1B5/3R4/8/4K3 w - - 0 1",
+    "r3n2k/4R1p1/6P1/8/Q1B5/5R2/8/4K3 w - - 0 1",
+];
 
 /// small positions near mate: a strong side (queen/rooks/minor + pawns), kings biased to rims
 pub fn gen_mate_position(rng: &mut Rng) -> Pos {
@@ -415,7 +423,38 @@ pub fn run_c11(seed: u64, runno: u64, solver_bound: u32) -> Acc {
     let mut acc = Acc::new();
     let z = ZobristHasher::create_zobrist_hasher();
     // sources: generated small positions, the endgame seeds and terminal-adjacent walks
-    let root = match rng.below(4) {
+    let root = match rng.below(24) {
+        23 => {
+            // cross-check chains: a capture with check whose every reply gives check back and
+            // is answered by mate is seen as "mate in 2" already in iteration 1 (check
+            // extensions), BEFORE the quiet mate in one further down the ordering
+            let fen = *rng.pick(CROSS_CHECK_MATES);
+            let p = Pos::from_fen(fen).unwrap();
+            acc.count("c11_cross_check_positions");
+            if rng.chance(1, 2) { workload::mirror(&p) } else { p }
+        }
+        20 | 21 | 22 => {
+            // rich positions from the shared workload (many pieces: capture-with-check chains,
+            // quiet mates, defenders that can interpose), kept when a mate is near
+            let mut found = None;
+            for _ in 0..40 {
+                let p = workload::gen_position(&mut rng);
+                if p.is_terminal() {
+                    continue;
+                }
+                if r::mates_in(&p, 1) || p.legal_moves().iter().any(|m| r::mates_in(&p.apply(*m), 1)) {
+                    found = Some(p);
+                    break;
+                }
+            }
+            match found {
+                Some(p) => {
+                    acc.count("c11_rich_workload_positions");
+                    p
+                }
+                None => gen_mate_position(&mut rng),
+            }
+        }
         0 => {
             let g = crate::sa_checks::gen_terminal_game(&mut rng);
             match g {
@@ -477,7 +516,13 @@ pub fn judge_c11(game: &Game, solver_bound: u32, acc: &mut Acc, runno: u64, z: &
     let mated_soon = !safe_exists;
     let depth_of = |i: usize| crate::verif_seam::info_depth(&refr.lines[i].1).unwrap_or(0);
     let n = refr.sends.len();
-    let iter_done = |d: u32| refr.stopped && d <= depth || (0..n).any(|i| depth_of(i) > d);
+    // under an unlimited clock a search that RETURNED by itself has finished every iteration it
+    // will ever run: what it handed back last is what gets played
+    let ended_by_itself = !refr.stopped && refr.panicked.is_none();
+    if ended_by_itself {
+        acc.count("c11_search_returned_by_itself_under_unlimited_clock");
+    }
+    let iter_done = |d: u32| ended_by_itself || refr.stopped && d <= depth || (0..n).any(|i| depth_of(i) > d);
     let mut class = "other";
     // (1) a mate in one is played once iteration 1 has finished
     if can_mate_1 {
@@ -525,7 +570,8 @@ pub fn judge_c11(game: &Game, solver_bound: u32, acc: &mut Acc, runno: u64, z: &
         if let Err(nm) = inf.score {
             let d = depth_of(i);
             if nm > 0 {
-                if nm as u32 <= solver_bound {
+                let bound = if root.piece_count() > 10 { solver_bound.min(2) } else { solver_bound };
+                if nm as u32 <= bound {
                     acc.count("c11_mate_claims_verified");
                     if !r::mates_in(&root, nm as u32) {
                         v(format!("C11/false-mate-claim/depth-{}", d.min(4)), format!("{:?} but no forced mate in {} exists", l, nm), acc);
@@ -537,7 +583,7 @@ pub fn judge_c11(game: &Game, solver_bound: u32, acc: &mut Acc, runno: u64, z: &
                 // "mated in N" on an interim line is only the best line found so far (a lower
                 // bound); the property quantifies over completed depths: judge the final line
                 acc.count("c11_interim_mated_lines_not_judged");
-            } else if (-nm) as u32 <= solver_bound {
+            } else if (-nm) as u32 <= if root.piece_count() > 10 { solver_bound.min(2) } else { solver_bound } {
                 acc.count("c11_mated_claims_verified");
                 if !r::is_mated_in(&root, (-nm) as u32) {
                     v(format!("C11/false-mated-claim/depth-{}", d.min(4)), format!("{:?} but the side to move is not mated within {} moves against every defence", l, -nm), acc);
@@ -646,7 +692,7 @@ pub fn judge_c10_search(game: &Game, want: u32, acc: &mut Acc, runno: u64, z: &Z
     acc.count(&format!("c10_roots_with_drawing_move_count_{}", want));
     let scen = json!({"family": "SB", "check": "C10", "start_fen": game.start.fen(), "moves": game.moves_text(), "want": want});
     for d in 1..=depth {
-        let completed = refr.stopped || refr.lines.iter().any(|(_, l)| crate::verif_seam::info_depth(l).map(|x| x > d).unwrap_or(false));
+        let completed = refr.stopped || (!refr.stopped && refr.panicked.is_none()) || refr.lines.iter().any(|(_, l)| crate::verif_seam::info_depth(l).map(|x| x > d).unwrap_or(false));
         if !completed {
             continue;
         }
